@@ -56,7 +56,7 @@ func NewConnection(connection net.Conn, context Context) *Connection {
 }
 
 // EncryptedWrite encrypts and writes bytes to the connection.
-// The method returns the number of written bytes and an error when writing failed.
+// The method returns the number of bytes of b which were written and an error when writing failed.
 func (con *Connection) EncryptedWrite(b []byte) (int, error) {
 	verifWriteEnter(con)
 
@@ -82,9 +82,13 @@ func (con *Connection) EncryptedWrite(b []byte) (int, error) {
 
 	encryptedBytes, err := ioutil.ReadAll(encrypted)
 	verifWriteGate(con, encryptedBytes)
-	n, err := con.connection.Write(encryptedBytes)
+	if _, err = con.connection.Write(encryptedBytes); err != nil {
+		return 0, err
+	}
 
-	return n, err
+	// The number of bytes of b which were written – not the number of encrypted bytes,
+	// which is larger (writers on top of the connection, like a bufio.Writer, rely on that).
+	return len(b), nil
 }
 
 // DecryptedRead reads and decrypts bytes from the connection.
